@@ -301,7 +301,7 @@ func (ro *Roles) expiryHandler(r *Report, rule string) {
 								if e.In == ssa.Instruction(st) {
 									cleared = true
 								}
-								if mu, ok := e.In.(*ssa.MapUpdate); ok && e.Kind == "mapupdate" && strings.Contains(e.Target, waitListField) && ro.formOf(mu.Value, w.AP(mu.Key), 0) == "delete-at-i" {
+								if mu, ok := e.In.(*ssa.MapUpdate); ok && e.Kind == "mapupdate" && strings.Contains(e.Target, waitListField) && strings.HasPrefix(ro.formOf(mu.Value, w.AP(mu.Key), 0), "delete-at-i") {
 									removed = true
 								}
 							}
